@@ -725,6 +725,14 @@ func diffClass(cat, got, want string) string {
 		if strings.Contains(got, "MATCHONE-DIFFERS") {
 			return "match-vs-matchone"
 		}
+		if strings.HasPrefix(got, "fromConfig=") && strings.HasPrefix(want, "fromConfig=") {
+			hg, rg, _ := strings.Cut(got, " ")
+			hw, rw, _ := strings.Cut(want, " ")
+			if hg != hw {
+				return "data-origin"
+			}
+			got, want = rg, rw
+		}
 		g, w := strings.Split(got, ";"), strings.Split(want, ";")
 		if cat == "match-source" && onlyPeerExtras(g, w) {
 			// the result is the reference result plus intentions whose source is in a PEER
@@ -827,6 +835,17 @@ func peerTwin(m model, i ixn) (ixn, bool) {
 	return ixn{}, false
 }
 
+func withoutPair(list, pair string) string {
+	head, items, _ := strings.Cut(list, " ")
+	var keep []string
+	for _, x := range strings.Split(items, ";") {
+		if !strings.Contains(x, pair) {
+			keep = append(keep, x)
+		}
+	}
+	return head + " " + strings.Join(keep, ";")
+}
+
 // applyOp applies one write to the real store and the model and verifies the write itself (no error,
 // list equals the model). Returns ok=false when the store has diverged (the case is abandoned) and
 // peerDefect=true when the divergence is the source-peer-ignored defect class of the by-name mutations.
@@ -853,8 +872,20 @@ func applyOp(run *core.Run, st *store, m model, o op, done []op) (ok, peerDefect
 		return true, false
 	}
 	wit := map[string]any{"flavor": st.fl, "history": append(append([]op{}, done...), o), "error": e, "list_real": got, "list_reference": want}
+	if e == "" {
+		if cls := diffClass("list", got, want); cls == "order" || cls == "precedence-value" {
+			// the store holds the right intentions; only the list ANSWER is wrong: report, go on
+			run.Violation(fmt.Sprintf("C13:%s:list:%s", st.fl, cls),
+				fmt.Sprintf("[%s] list after %s %s: real=%q reference=%q; history=%s", st.fl, o.Verb, core.JSON(o.I), got, want, core.JSON(wit["history"])), wit)
+			return true, false
+		}
+	}
 	if st.fl == flCfg && o.I.Mode == modeMutation {
-		if tw, has := peerTwin(before, o.I); has {
+		// the defect class is recognised by its exact symptom: a source of the same NAME in another peer
+		// exists in the entry, and real and expected content differ in nothing but that source->destination pair
+		pair := fmt.Sprintf("/%s=>[]default/%s ", o.I.Src, o.I.Dst)
+		symptom := withoutPair(got, pair) == withoutPair(want, pair) && (e == "" || strings.Contains(e, "more than once"))
+		if tw, has := peerTwin(before, o.I); has && symptom {
 			wit["peer_twin"] = tw
 			verb := map[string]string{"put": "upsert", "del": "delete"}[o.Verb]
 			run.Violation("C13:cfg:mutation-"+verb+":source-peer-ignored",
